@@ -8,7 +8,8 @@ package main
 // Classes: the C03 generator's descriptors x values (unknown fields of every shape, missing required fields, non-finite doubles,
 // escape-relevant strings, binaries, int/string/double/bool map keys) x options {Int642String, ByteAsUint8, NoBase64Binary,
 // DisallowUnknownField, UseNativeSkip, EnableValueMapping (api.js_conv fields), WriteDefaultField, WriteRequireField,
-// WriteOptionalField (no effect without SetOptionalBitmap), EnableThriftBase with / without a BaseResp in the context}; deeply nested lists / maps / structs; structs whose required fields sit at the
+// WriteOptionalField (no effect without SetOptionalBitmap), EnableThriftBase with / without a BaseResp in the context,
+// ConvertException (success field id 0 / exception fields)}; deeply nested lists / maps / structs; structs whose required fields sit at the
 // word boundaries of the requires bitmap; bytes followed by garbage; truncated and corrupted encodings (outside C03: the
 // checker reports a disagreement there as drift only).
 
@@ -69,7 +70,9 @@ func run03b(desc *thrift.TypeDescriptor, dfs []string, tb []byte, opts int) {
 	if !ok {
 		ec = 3
 	}
-	if ec != 0 {
+	if ec == 2 {
+		outb = []byte(err.Error()) // ConvertException: the exception's JSON is the text of the error
+	} else if ec != 0 {
 		outb = nil
 	}
 	fields := []string{fi(opts)}
@@ -118,6 +121,9 @@ func walkOpts(r *rng) int {
 	}
 	if r.chance(15) {
 		opts |= o3bWriteOptional
+	}
+	if r.chance(12) {
+		opts |= o3ConvertException
 	}
 	if r.chance(25) {
 		opts = 0
@@ -191,6 +197,10 @@ func genC03Bytes(r *rng, n int) {
 				g.structs = g.structs[:len(g.structs)-1]
 				g.base = nil
 			}
+		}
+		// a success field with id 0 (ConvertException treats every other id as an exception)
+		if g.r.chance(30) && len(root.Fields) > 0 && root.Fields[0] != baseFld {
+			root.Fields[0].ID = 0
 		}
 		g.decorate(root)
 		if useBase {
